@@ -282,6 +282,10 @@ class WcMatch(Generic[AnyStr]):
                 if self.is_aborted():  # pragma: no cover
                     break
 
+            # A kill issued while validating folders ends the walk before any file of this directory is processed
+            if self.is_aborted():
+                break
+
             # Search files if they were found
             if files:
                 # Only search files that are in the include rules
